@@ -182,6 +182,9 @@ def gen_case(prop, seed, p_fault=0.6):
         dom, pspace = gen_domain(r, rng, want_boundary=True, allow_tf=False, allow_prod=False)
         if dom["k"] != "bnd":
             dom = {"k": "bnd", "d": dom["d"]}
+        if r.random() < 0.12:
+            # the polygon primitive (shapely), with holes
+            dom, pspace = {"k": "bnd", "d": GG.gen_poly_holes(r)}, []
         pspace, prows = gen_prows(r, pspace, allow_unused=False)
         entry = {"kind": "domain", "method": r.choice(("random", "random", "grid")) if len(prows) <= 1 else "random",
                  "n": r.choice((1, 2, 3, 7, 16, 50, 120, 400))}
